@@ -3,6 +3,7 @@ r"""Recreate from average function with given strategy.
 """
 
 from abc import ABC, abstractmethod
+from operator import index
 
 import numpy as np
 from scipy.interpolate import CubicSpline
@@ -50,9 +51,9 @@ class AbstractRFA(ABC):
     def __init__(self, x, y, n, **kwargs):
         self.x = np.asarray(x, dtype=float)
         self.y = np.asarray(y, dtype=float)
-        self.n = n
         if n < 2:
             raise ValueError("n cannot be lower than 2.")
+        self.n = index(n)  # [n:-n] wraps around for NumPy unsigned integers
 
     @abstractmethod
     def rfa(self):
